@@ -355,6 +355,11 @@ def joinFasta (fields : List Bytes) : Bytes :=
   | [n, s] => [62] ++ n ++ [10] ++ s ++ [10]
   | _ => []
 
+/-- `NpDataclassReader._should_be_lazy`, as written in the code: `config.LAZY`, the `lazy=` keyword (`none` = not passed), and
+whether the buffer type is excluded from lazy reading (GTF/GFF entries, buffers without `get_field_by_number`) -/
+def shouldBeLazy (cfgLazy : Bool) (kw : Option Bool) (excluded : Bool) : Bool :=
+  if ((!cfgLazy) && kw.isNone) || (kw == some false) then false else !excluded
+
 /-- which rules the current tree uses (false = shipped, true = repaired) -/
 def concatFixed : Bool := true
 def setattrFixed : Bool := true
